@@ -10,11 +10,14 @@ GEN = ["Gen_parser", "Gen_cal"]
 ASSUMPTIONS = [
     "Timezone.from_tzid (the provider's generator, C13) is an oracle: known ids yield a VTIMEZONE with that TZID whose own "
     "values carry no TZID parameter; the iteration order of the Python set is a parameter of the model",
-    "generated VTIMEZONEs are memoised per id by the harness (generation is slow); the memo wraps the real function",
+    "generated VTIMEZONEs are memoised per id by the harness (generation is slow); the memo wraps the real function, and "
+    "every 6th use of a memoised entry calls the real function again and compares",
 ]
 TRUSTED = []
 
-KNOWN_IDS = ["Europe/Berlin", "America/New_York", "Asia/Tokyo", "Europe/London", "Australia/Sydney"]
+KNOWN_IDS = ["Europe/Berlin", "America/New_York", "Asia/Tokyo", "Europe/London", "Australia/Sydney",
+             # other spellings the provider resolves to the same zone objects: each is an id of its own
+             "/Europe/Berlin", "W. Europe Standard Time", "Eastern Standard Time", "GMT Standard Time"]
 UNKNOWN_IDS = ["X/Unknown", "Custom/Zone", "Mars/Olympus"]
 PROPS = ["DTSTART", "DTEND", "DUE", "RECURRENCE-ID", "RDATE", "EXDATE", "FREEBUSY", "X-WHEN"]
 
@@ -103,6 +106,7 @@ def run(ctx, res):
     # memoise the (slow) generator; it is the real one
     orig = Timezone.from_tzid.__func__
     memo = {}
+    uses = {}
 
     def cached(cls, tzid, *a, **kw):
         key = (tzid, repr(a), repr(sorted(kw.items())))
@@ -110,6 +114,14 @@ def run(ctx, res):
             # only successes are memoised: an unknown id can become known later in the process, when a parsed
             # calendar defines it (process-wide time-zone cache, see C12)
             memo[key] = orig(cls, tzid, *a, **kw).to_ical()
+            uses[key] = 0
+        uses[key] += 1
+        if uses[key] % 6 == 0:
+            again = orig(cls, tzid, *a, **kw).to_ical()
+            res.evaluations += 1
+            if again != memo[key]:
+                res.fail("C18 oracle: Timezone.from_tzid is not a function of its arguments (a later call for the same id "
+                         "gives another component)", tzid, observed=again.decode()[:300], expected=memo[key].decode()[:300])
         return cls.from_ical(memo[key])
     Timezone.from_tzid = classmethod(cached)
 
